@@ -303,6 +303,22 @@ def np_searchsorted(ex, args, kw, st):
     return i
 
 
+def np_maxmin2(which):
+    """np.maximum / np.minimum(a, b): elementwise (scalars broadcast)."""
+    def g(ex, args, kw, st):
+        if kw or len(args) != 2:
+            raise Unsupported(f'np.{which} with options')
+
+        def f(x, y):
+            x, y = coerce2(x, y)
+            return z3.If(x >= y, x, y) if which == 'maximum' else z3.If(x <= y, x, y)
+        a, b = args
+        if isinstance(a, (SArr, SSeq, SBag)) or isinstance(b, (SArr, SSeq, SBag)):
+            return ex.lift2(f, a, b)
+        return f(a, b)
+    return g
+
+
 def np_extremum(meth):
     def g(ex, args, kw, st):
         if kw or len(args) != 1:
@@ -1277,7 +1293,8 @@ TABLE = {
     'int': p_int, 'float': p_float, 'bool': p_bool, 'abs': p_abs, 'np.abs': p_abs,
     'np.fabs': p_abs, 'fabs': p_abs, 'math.fabs': p_abs,
     'min': p_min, 'max': p_max, 'len': p_len, 'isinstance': p_isinstance, 'slice': p_slice,
-    'tuple': p_tuple, 'list': p_list, 'set': p_set, 'sorted': p_sorted, 'np.insert': np_insert, 'np.isscalar': np_isscalar, 'hasattr': p_hasattr, 'np.max': np_extremum('max'), 'np.min': np_extremum('min'),
+    'tuple': p_tuple, 'list': p_list, 'set': p_set, 'sorted': p_sorted, 'np.insert': np_insert, 'np.isscalar': np_isscalar, 'hasattr': p_hasattr,
+    'np.maximum': np_maxmin2('maximum'), 'np.minimum': np_maxmin2('minimum'), 'np.max': np_extremum('max'), 'np.min': np_extremum('min'),
     'np.amax': np_extremum('max'), 'np.amin': np_extremum('min'), 'np.searchsorted': np_searchsorted, 'zip': p_zip, 'range': p_range, 'enumerate': p_enumerate,
     'sum': p_sum, 'all': p_all_py, 'any': p_any_py, 'round': p_round_unsupported,
     'math.sqrt': p_sqrt, 'np.sqrt': p_sqrt, 'sqrt': p_sqrt,
